@@ -13,6 +13,7 @@ import (
 	"fmt"
 	"strconv"
 	"strings"
+	"time"
 
 	"git.sr.ht/~rockorager/vaxis"
 	"verifharness/fakeconsole"
@@ -32,7 +33,16 @@ func apiCase(r *hx.Run, rng *gen.Rng) error {
 	if err != nil {
 		return err
 	}
-	defer vx.Close()
+	defer func() {
+		fc.Respond = nil
+		done := make(chan struct{})
+		go func() { defer func() { recover() }(); vx.Close(); close(done) }()
+		select {
+		case <-done:
+		case <-time.After(3 * time.Second):
+			r.Count("api-close-hang")
+		}
+	}()
 	stop := make(chan struct{})
 	defer close(stop)
 	go func() {
@@ -48,52 +58,69 @@ func apiCase(r *hx.Run, rng *gen.Rng) error {
 		name := gen.Pick(rng, []string{"clipboard-push", "clipboard-pop", "notify", "title", "appid", "bell", "cursorpos", "qcolor", "qfg", "qbg"})
 		a, b := "", ""
 		fc.Take()
-		switch name {
-		case "clipboard-push":
-			a = gen.Pick(rng, apiTexts)
-			vx.ClipboardPush(a)
-		case "clipboard-pop":
-			ctx, cancel := context.WithCancel(context.Background())
-			cancel()
-			_, _ = vx.ClipboardPop(ctx)
-		case "notify":
-			a, b = gen.Pick(rng, apiTexts), gen.Pick(rng, apiTexts)
-			vx.Notify(a, b)
-		case "title":
-			a = gen.Pick(rng, apiTexts)
-			vx.SetTitle(a)
-		case "appid":
-			a = gen.Pick(rng, apiTexts)
-			vx.SetAppID(a)
-		case "bell":
-			vx.Bell()
-		case "cursorpos":
-			vx.CursorPosition()
-		case "qcolor":
-			idx := rng.Intn(256)
-			a = strconv.Itoa(idx)
-			fc.Respond = func(c *fakeconsole.Console, written []byte) []byte {
-				if strings.Contains(string(written), "\x1b]4;") {
-					return []byte(fmt.Sprintf("\x1b]4;%d;rgb:12/34/56\x1b\\", idx))
+		finished := make(chan struct{})
+		go func() {
+			defer close(finished)
+			defer func() { recover() }()
+			switch name {
+			case "clipboard-push":
+				a = gen.Pick(rng, apiTexts)
+				vx.ClipboardPush(a)
+			case "clipboard-pop":
+				ctx, cancel := context.WithCancel(context.Background())
+				cancel()
+				_, _ = vx.ClipboardPop(ctx)
+			case "notify":
+				a, b = gen.Pick(rng, apiTexts), gen.Pick(rng, apiTexts)
+				vx.Notify(a, b)
+			case "title":
+				a = gen.Pick(rng, apiTexts)
+				vx.SetTitle(a)
+			case "appid":
+				a = gen.Pick(rng, apiTexts)
+				vx.SetAppID(a)
+			case "bell":
+				vx.Bell()
+			case "cursorpos":
+				vx.CursorPosition()
+			case "qcolor":
+				idx := rng.Intn(256)
+				a = strconv.Itoa(idx)
+				fc.Respond = func(c *fakeconsole.Console, written []byte) []byte {
+					if strings.Contains(string(written), "\x1b]4;") {
+						return []byte(fmt.Sprintf("\x1b]4;%d;rgb:12/34/56\x1b\\", idx))
+					}
+					return nil
 				}
-				return nil
-			}
-			vx.QueryColor(vaxis.IndexColor(uint8(idx)))
-			fc.Respond = nil
-		case "qfg", "qbg":
-			n := map[string]string{"qfg": "10", "qbg": "11"}[name]
-			fc.Respond = func(c *fakeconsole.Console, written []byte) []byte {
-				if strings.Contains(string(written), "\x1b]"+n+";?") {
-					return []byte("\x1b]" + n + ";rgb:12/34/56\x1b\\")
+				vx.QueryColor(vaxis.IndexColor(uint8(idx)))
+				fc.Respond = nil
+			case "qfg", "qbg":
+				n := map[string]string{"qfg": "10", "qbg": "11"}[name]
+				fc.Respond = func(c *fakeconsole.Console, written []byte) []byte {
+					if strings.Contains(string(written), "\x1b]"+n+";?") {
+						return []byte("\x1b]" + n + ";rgb:12/34/56\x1b\\")
+					}
+					return nil
 				}
-				return nil
+				if name == "qfg" {
+					vx.QueryForeground()
+				} else {
+					vx.QueryBackground()
+				}
+				fc.Respond = nil
 			}
-			if name == "qfg" {
-				vx.QueryForeground()
-			} else {
-				vx.QueryBackground()
-			}
-			fc.Respond = nil
+		}()
+		hung := false
+		select {
+		case <-finished:
+		case <-time.After(2 * time.Second):
+			hung = true
+		}
+		if hung {
+			// the call never returned (e.g. a colour query waiting for an answer the input loop does not forward)
+			r.Emit(fmt.Sprintf("api %019b %s a=%s b=%s", adv, name, hx.Hex(a), hx.Hex(b)), "hang:"+hx.Hex(string(fc.Take())))
+			r.Count("api-hang")
+			return nil
 		}
 		out := fc.Take()
 		r.Emit(fmt.Sprintf("api %019b %s a=%s b=%s", adv, name, hx.Hex(a), hx.Hex(b)), hx.Hex(string(out)))
